@@ -323,7 +323,8 @@ func checkCtor(p *Prog, r *Report, ctor *ssa.Function, tg *ssa.Global) *types.Na
 	}
 	r.Check(okReject, "C04.R2", name+"/reject-nonpositive", pos, "n <= 0 returns an error before any use", detail)
 
-	// R2b: selection by sort.Search(len(table), func(i){ table[i].P > n }) and idx == len guard
+	// R2b: selection of the first row with P > n: sort.Search(len(table), func(i){ table[i].P > n }),
+	// or the linear idiom `idx := 0; for idx < len(table) && table[idx].P <= n { idx++ }`
 	var search *ssa.Call
 	for _, b := range ctor.Blocks {
 		for _, in := range b.Instrs {
@@ -332,37 +333,121 @@ func checkCtor(p *Prog, r *Report, ctor *ssa.Function, tg *ssa.Global) *types.Na
 			}
 		}
 	}
-	if search == nil {
-		r.Undecided("C04.R2", name+"/selection", pos, "row selected with sort.Search over the table", "no sort.Search call (other selection idioms are not recognised)")
-		return nil
-	}
-	lenOK := false
-	if bi, ok := stripConv(search.Call.Args[0]).(*ssa.Call); ok {
-		if b, ok := bi.Call.Value.(*ssa.Builtin); ok && b.Name() == "len" && globalOfLoad(bi.Call.Args[0]) == tg {
-			lenOK = true
+	var selIdx ssa.Value
+	var selPos token.Pos
+	var loopHead *ssa.BasicBlock
+	if search != nil {
+		selIdx, selPos = search, search.Pos()
+		lenOK := false
+		if bi, ok := stripConv(search.Call.Args[0]).(*ssa.Call); ok {
+			if b, ok := bi.Call.Value.(*ssa.Builtin); ok && b.Name() == "len" && globalOfLoad(bi.Call.Args[0]) == tg {
+				lenOK = true
+			}
 		}
-	}
-	r.Check(lenOK, "C04.R2", name+"/search-bound", p.Pos(search.Pos()), "sort.Search ranges over the whole table (len(table))", "first argument is not len(table)")
-	predOK := false
-	predDetail := "predicate is not `table[i].P > n`"
-	if cl := funcOfValue(search.Call.Args[1], 0); cl != nil && len(cl.Blocks) == 1 {
-		if ret, ok := cl.Blocks[0].Instrs[len(cl.Blocks[0].Instrs)-1].(*ssa.Return); ok && len(ret.Results) == 1 {
-			if bo, ok := ret.Results[0].(*ssa.BinOp); ok {
-				x, y := bo.X, bo.Y
-				op := bo.Op
-				if op == token.LSS {
-					x, y = y, x
-					op = token.GTR
-				}
-				if op == token.GTR && isRowFieldOfIndex(x, tg, cl.Params[0], "P") && isNFree(y, nParam) {
-					predOK = true
-				} else if op == token.GEQ || op == token.LEQ {
-					predDetail = "predicate is not strict: a group with P == n misses the value n"
+		r.Check(lenOK, "C04.R2", name+"/search-bound", p.Pos(search.Pos()), "sort.Search ranges over the whole table (len(table))", "first argument is not len(table)")
+		predOK := false
+		predDetail := "predicate is not `table[i].P > n`"
+		if cl := funcOfValue(search.Call.Args[1], 0); cl != nil && len(cl.Blocks) == 1 {
+			if ret, ok := cl.Blocks[0].Instrs[len(cl.Blocks[0].Instrs)-1].(*ssa.Return); ok && len(ret.Results) == 1 {
+				if bo, ok := ret.Results[0].(*ssa.BinOp); ok {
+					x, y := bo.X, bo.Y
+					op := bo.Op
+					if op == token.LSS {
+						x, y = y, x
+						op = token.GTR
+					}
+					if op == token.GTR && isRowFieldOfIndex(x, tg, cl.Params[0], "P") && isNFree(y, nParam) {
+						predOK = true
+					} else if op == token.GEQ || op == token.LEQ {
+						predDetail = "predicate is not strict: a group with P == n misses the value n"
+					}
 				}
 			}
 		}
+		r.Check(predOK, "C04.R2", name+"/search-predicate", p.Pos(search.Pos()), "the selected row is the first with P > n (strict)", predDetail)
+	} else {
+		// linear first-match loop
+		heads := loopHeadersSorted(ctor)
+		var idxPhi *ssa.Phi
+		if len(heads) == 1 {
+			for _, in := range heads[0].Instrs {
+				if ph, ok := in.(*ssa.Phi); ok {
+					if bt, isB := ph.Type().Underlying().(*types.Basic); isB && bt.Info()&types.IsInteger != 0 {
+						idxPhi = ph
+					}
+				}
+			}
+		}
+		if idxPhi == nil {
+			r.Undecided("C04.R2", name+"/selection", pos, "row selected with sort.Search over the table or a linear first-match loop", "neither idiom found")
+			return nil
+		}
+		H := heads[0]
+		loopHead = H
+		selIdx, selPos = idxPhi, idxPhi.Pos()
+		initOK, stepOK := false, true
+		for i, pb := range H.Preds {
+			if !H.Dominates(pb) {
+				if k, ok := constInt(idxPhi.Edges[i]); ok && k == 0 {
+					initOK = true
+				}
+			}
+		}
+		contOK, whyCont := true, ""
+		nBack := 0
+		for _, s := range fp.From(H) {
+			if s.End != H {
+				continue
+			}
+			nBack++
+			in := s.PhiIn(idxPhi)
+			if bo, ok := in.(*ssa.BinOp); !ok || bo.Op != token.ADD || bo.X != ssa.Value(idxPhi) {
+				stepOK = false
+			} else if k, ok := constInt(bo.Y); !ok || k != 1 {
+				stepOK = false
+			}
+			// the loop continues only while idx < len(table) and table[idx].P <= n
+			inRange, notGreater := false, false
+			for _, f := range s.Facts {
+				bo, ok := f.Cond.(*ssa.BinOp)
+				if !ok {
+					continue
+				}
+				if bo.X == ssa.Value(idxPhi) && isLenOf(bo.Y, tg) && ((bo.Op == token.LSS && f.Truth) || (bo.Op == token.GEQ && !f.Truth)) {
+					inRange = true
+				}
+				x, y, op, truth := bo.X, bo.Y, bo.Op, f.Truth
+				if isNFree(x, nParam) && !isNFree(y, nParam) {
+					// n OP row  ==  row OP' n
+					x, y = y, x
+					switch op {
+					case token.LSS:
+						op = token.GTR
+					case token.LEQ:
+						op = token.GEQ
+					case token.GTR:
+						op = token.LSS
+					case token.GEQ:
+						op = token.LEQ
+					}
+				}
+				if isRowFieldOfIndex(x, tg, idxPhi, "P") && isNFree(y, nParam) {
+					if (op == token.LEQ && truth) || (op == token.GTR && !truth) {
+						notGreater = true
+					} else if (op == token.LSS && truth) || (op == token.GEQ && !truth) {
+						contOK, whyCont = false, "the scan stops at a row with P == n: a group with P == n misses the value n"
+					}
+				}
+			}
+			if !inRange || !notGreater {
+				if contOK {
+					contOK, whyCont = false, "the loop does not advance exactly while idx < len(table) and table[idx].P <= n"
+				}
+			}
+		}
+		r.Check(initOK && stepOK && nBack > 0, "C04.R2", name+"/search-bound", p.Pos(selPos), "the linear scan starts at row 0 and advances by one row", "start or step of the scan index")
+		r.Check(contOK && nBack > 0, "C04.R2", name+"/search-predicate", p.Pos(selPos), "the selected row is the first with P > n (strict)", whyCont)
 	}
-	r.Check(predOK, "C04.R2", name+"/search-predicate", p.Pos(search.Pos()), "the selected row is the first with P > n (strict)", predDetail)
 	// idx == len guard dominates the index
 	guardOK := true
 	gdetail := ""
@@ -375,7 +460,10 @@ func checkCtor(p *Prog, r *Report, ctor *ssa.Function, tg *ssa.Global) *types.Na
 					continue
 				}
 				nIdx++
-				if s.Resolve(ia.Index) != ssa.Value(search) {
+				if loopHead != nil && s.End == loopHead {
+					continue // the row test inside the linear scan, guarded by idx < len(table)
+				}
+				if s.Resolve(ia.Index) != selIdx {
 					guardOK = false
 					gdetail = "table indexed by something other than the search result"
 					continue
@@ -383,12 +471,12 @@ func checkCtor(p *Prog, r *Report, ctor *ssa.Function, tg *ssa.Global) *types.Na
 				found := false
 				for _, f := range s.Facts {
 					if bo, ok := f.Cond.(*ssa.BinOp); ok && (bo.Op == token.EQL || bo.Op == token.GEQ) && !f.Truth {
-						if s.Resolve(bo.X) == ssa.Value(search) && isLenOf(bo.Y, tg) {
+						if s.Resolve(bo.X) == selIdx && isLenOf(bo.Y, tg) {
 							found = true
 						}
 					}
 					if bo, ok := f.Cond.(*ssa.BinOp); ok && (bo.Op == token.LSS || bo.Op == token.NEQ) && f.Truth {
-						if s.Resolve(bo.X) == ssa.Value(search) && isLenOf(bo.Y, tg) {
+						if s.Resolve(bo.X) == selIdx && isLenOf(bo.Y, tg) {
 							found = true
 						}
 					}
@@ -400,7 +488,7 @@ func checkCtor(p *Prog, r *Report, ctor *ssa.Function, tg *ssa.Global) *types.Na
 			}
 		}
 	}
-	r.Check(guardOK && nIdx > 0, "C04.R2", name+"/no-row-rejected", p.Pos(search.Pos()), "idx == len(table) returns an error; the table is indexed only below len", gdetail)
+	r.Check(guardOK && nIdx > 0, "C04.R2", name+"/no-row-rejected", p.Pos(selPos), "idx == len(table) returns an error; the table is indexed only below len", gdetail)
 
 	// R3 + R5 on success segments (entry segments returning nil error)
 	var iterT *types.Named
@@ -414,7 +502,7 @@ func checkCtor(p *Prog, r *Report, ctor *ssa.Function, tg *ssa.Global) *types.Na
 	nSucc := 0
 	for _, s := range fp.Segs {
 		ret, isRet := s.Exit.(*ssa.Return)
-		if s.Start != ctor.Blocks[0] || !isRet || len(ret.Results) != 2 || !isNilConst(ret.Results[1]) {
+		if (s.Start != ctor.Blocks[0] && s.Start != loopHead) || !isRet || len(ret.Results) != 2 || !isNilConst(ret.Results[1]) {
 			continue
 		}
 		nSucc++
@@ -426,7 +514,7 @@ func checkCtor(p *Prog, r *Report, ctor *ssa.Function, tg *ssa.Global) *types.Na
 	// R5b: Next false and n > 1 => error
 	for _, s := range fp.Segs {
 		ret, isRet := s.Exit.(*ssa.Return)
-		if s.Start != ctor.Blocks[0] || !isRet || len(ret.Results) != 2 || !isNilConst(ret.Results[1]) {
+		if (s.Start != ctor.Blocks[0] && s.Start != loopHead) || !isRet || len(ret.Results) != 2 || !isNilConst(ret.Results[1]) {
 			continue
 		}
 		for _, e := range s.Events {
@@ -457,6 +545,9 @@ func isLenOf(v ssa.Value, tg *ssa.Global) bool {
 }
 
 func isNFree(v ssa.Value, n *ssa.Parameter) bool {
+	if v == ssa.Value(n) {
+		return true
+	}
 	// inside the search closure n is a captured cell: *fv with binding = alloc whose only store is the parameter
 	if u, ok := v.(*ssa.UnOp); ok && u.Op == token.MUL {
 		if fv, ok := u.X.(*ssa.FreeVar); ok {
